@@ -288,6 +288,12 @@ def main():
         chk.bounds.append('key-object invariant, one inductive step on toy curve %s from every valid key pair (d, Q): accessors Bytes/Scalar/PublicKey/'
                           'CompressedBytes/Point with every returned byte, scalar and point overwritten by arbitrary values; ECDH, Equal, '
                           'NewSchnorrPrivateKeyFromECDSA, NewSchnorrPublicKeyFromECDSA with the keys as operands' % (toys[0],))
+    # contracts this check's toy layer uses for routines named in the property's own file list: re-decided here (see common.include_dependency)
+    from .common import include_dependency
+    if not only or 'dep' in only:
+        include_dependency(chk, tasks, 'C04', '', "ECDH multiplies the peer's point by the private scalar with Point.ScalarMult (toy layer: contract s*P)")
+        include_dependency(chk, tasks, 'C05', 'table lookup basemult key', 'a private scalar d is mapped to its public key with ScalarBaseMult (toy layer: contract d*G)')
+        include_dependency(chk, tasks, 'C06', 'decode coords', 'NewPublicKey decodes through Point.SetBytes / NewPointFromBytes (full-width decode claims)')
     chk.run_tasks(tasks)
     chk.discharge()
     chk.finish()
